@@ -48,7 +48,7 @@ def lastExplicit (n : Bytes) : List Call → Option (List Bytes)
 def bodyOf : Call → Option (BodyKind × Bytes)
   | .body k b => some (k, b)
   | .bodyForm ps => some (.form, formEncode ps)
-  | .bodyReader b => some (.bytes, b)
+  | .bodyReader chunks d => some (.bytes, readerContent chunks d)
   | _ => none
 
 /-- the body that is sent is the last one set -/
